@@ -8,6 +8,10 @@ import sys
 HERE = os.path.dirname(os.path.dirname(os.path.dirname(os.path.abspath(__file__))))
 sys.path.insert(0, HERE)
 sys.path.insert(0, os.environ.get('VERIF_REPO', '/repo'))
+if os.environ.get('VERIF_MODE') == 'debuglog':       # same process configuration as the shard that started this child
+    import logging
+    logging.getLogger().setLevel(logging.DEBUG)
+    logging.getLogger().addHandler(logging.NullHandler())
 
 from vlib.engine import CaseViolation, jsonable  # noqa: E402
 from vlib.tagoracle import LibDriver, HOSTILE_MODULE, ORDINARY, gen_names, runtime_hostile, own_attribute_names  # noqa: E402
